@@ -428,8 +428,9 @@ class _OmegaSolver(Contract):
     def gs(self, gdir, twoth):
         return [T.sin(twoth / 2) * x for x in vlist(gdir)]
 
-    def sqrt_hints(self, *args):
-        return [1]
+    def sqrt_hints(self, gdir, scale, twoth, *rest):
+        st = T.sin(twoth / 2)
+        return [1, st, scale, 2 * st, 1 / (2 * st)]
 
 
 def abc_general(gs, wx, wy):
@@ -467,13 +468,16 @@ class FindOmegaGeneral(_OmegaSolver):
         a, b, c = abc_general(gs, wx, wy)
         d = a * a + b * b - c * c
         yield 'two_or_none', len(om) in (0, 2) and len(eta) == len(om)
-        yield 'count_two_when_reachable', Implies(d > 0, len(om) == 2)
-        yield 'count_none_when_unreachable', Implies(d < 0, len(om) == 0)
+        # complete: two solutions exactly when the reflection can reach the diffraction condition
+        if len(om) == 0:
+            yield 'none_only_when_unreachable', d <= 0
+        else:
+            yield 'two_only_when_reachable', d >= 0
         for i in range(len(om)):
             yield from diffraction_clauses(i, self.omega_matrix(om[i], wx, wy), gs, twoth, om[i], eta[i])
         if len(om) == 2:
             # the two solutions are distinct
-            yield 'solutions_distinct', Not(And(Eq(T.cos(om[0]), T.cos(om[1])), Eq(T.sin(om[0]), T.sin(om[1]))))
+            yield '~solutions_distinct', Not(And(Eq(T.cos(om[0]), T.cos(om[1])), Eq(T.sin(om[0]), T.sin(om[1]))))
 
 
 @register(*BOTH)
@@ -507,12 +511,15 @@ class FindOmegaQuart(FindOmegaGeneral):
         a, b, c = self.abc(gs, wx, wy)
         d = a * a + b * b - c * c
         yield 'two_or_none', len(om) in (0, 2) and len(eta) == len(om)
-        yield 'count_two_when_reachable', Implies(d > 0, len(om) == 2)
-        yield 'count_none_when_unreachable', Implies(d < 0, len(om) == 0)
+        # complete: two solutions exactly when the reflection can reach the diffraction condition
+        if len(om) == 0:
+            yield 'none_only_when_unreachable', d <= 0
+        else:
+            yield 'two_only_when_reachable', d >= 0
         for i in range(len(om)):
             yield from diffraction_clauses(i, self.omega_matrix(om[i], wx, wy), gs, twoth, om[i], eta[i])
         if len(om) == 2:
-            yield 'solutions_distinct', Not(And(Eq(T.cos(om[0]), T.cos(om[1])), Eq(T.sin(om[0]), T.sin(om[1]))))
+            yield '~solutions_distinct', Not(And(Eq(T.cos(om[0]), T.cos(om[1])), Eq(T.sin(om[0]), T.sin(om[1]))))
 
 
 @register(*BOTH)
@@ -534,7 +541,12 @@ class FindOmega(_OmegaSolver):
 
     def sqrt_hints(self, gdir, scale, twoth):
         st = T.sin(twoth / 2)
-        return [1, st, scale, 2 * st]
+        gd = vlist(gdir)
+        a, b, c = gd[0], -gd[1], -st
+        d = a * a + b * b
+        sq = T.sqrt(d - c * c)
+        s1, s2 = (b * c - a * sq) / d, (b * c + a * sq) / d
+        return [1, st, scale, 2 * st, s1, -s1, s2, -s2]
 
     def ensures(self, gdir, scale, twoth, res):
         om = vlist(res)
@@ -543,8 +555,10 @@ class FindOmega(_OmegaSolver):
         st = T.sin(twoth / 2)
         reach = gd[0] * gd[0] + gd[1] * gd[1] - st * st
         yield 'two_or_none', len(om) in (0, 2)
-        yield 'count_two_when_reachable', Implies(reach > 0, len(om) == 2)
-        yield 'count_none_when_unreachable', Implies(reach < 0, len(om) == 0)
+        if len(om) == 0:
+            yield 'none_only_when_unreachable', reach <= 0
+        else:
+            yield 'two_only_when_reachable', reach >= 0
         for i in range(len(om)):
             yield from diffraction_clauses(i, Rz(om[i]), gs, twoth, om[i], None)
 
@@ -577,17 +591,16 @@ class FindOmegaWedge(_OmegaSolver):
         g = self.g_actual(gdir, scale, twoth)
         return [g, twoth, wedge]
 
-    def sqrt_hints(self, gdir, scale, twoth, wedge):
-        st = T.sin(twoth / 2)
-        return [1, st, scale, 2 * st]
 
     def ensures(self, gdir, scale, twoth, wedge, res):
         om, eta = vlist(res[0]), vlist(res[1])
         gs = self.gs(gdir, twoth)
         coseta, a = self.coseta_a(gdir, twoth, wedge)
         yield 'two_or_none', len(om) in (0, 2) and len(eta) == len(om)
-        yield 'count_two_when_reachable', Implies(And(coseta < 1, coseta > -1), len(om) == 2)
-        yield 'count_none_when_unreachable', Implies(Or(coseta > 1, coseta < -1), len(om) == 0)
+        if len(om) == 0:
+            yield 'none_only_when_unreachable', Or(coseta > 1, coseta < -1)
+        else:
+            yield 'two_only_when_reachable', And(coseta <= 1, coseta >= -1)
         for i in range(len(om)):
             # GrainSpotter sign of the wedge: Omega = Ry(-wedge) Rz(omega)
             yield from diffraction_clauses(i, mm(Ry(-wedge), Rz(om[i])), gs, twoth, om[i], eta[i])
